@@ -69,11 +69,12 @@ def run_property(pid: str, tier: str, write_evidence=True, quiet=False) -> int:
             mod.run_thorough(ctx)
         n = len(ctx.obligations)
         if n < getattr(mod, "MIN_OBLIGATIONS", 1) and not aborted:
-            raise AnchorError(
+            # undecided - unless a violation was found by the rules that did run (then this is listed as a note)
+            ctx.anchor_errors.append(AnchorError(
                 f"{pid}.obligations",
                 f"only {n} obligations were generated, at least {mod.MIN_OBLIGATIONS} were confirmed by hand "
                 "when the rule tables were frozen: a rule is matching vacuously",
-            )
+            ))
         selfcheck = None
         if tier == "thorough":
             from . import selfcheck as sc
